@@ -167,9 +167,13 @@ func genVerifyBigMutations(h *H, n int) {
 		sk := h.randSigKey()
 		pk := sk[32:]
 		v := []string{"1.0", "2.0"}[i%2]
-		a := h.makeSigned("att", sk, v, h.rng.Bytes(2*mib+h.rng.Intn(3)-1))
-		b := h.makeSigned("att", sk, v, h.rng.Bytes(mib+5))
-		for k := 0; k < 6; k++ {
+		la, nm := mib+3+h.rng.Intn(5), 3
+		if h.tier == "thorough" {
+			la, nm = 2*mib+h.rng.Intn(3)-1, 6
+		}
+		a := h.makeSigned("att", sk, v, h.rng.Bytes(la))
+		b := h.makeSigned("att", sk, v, h.rng.Bytes(100))
+		for k := 0; k < nm; k++ {
 			input, mut := mutateWire(h.rng, a.wire, b.wire)
 			h.tag("mut-big:" + mut)
 			h.Run(Case{Op: "verify", A: map[string]string{"vd": "any", "ring": blist([][]byte{pk}), "input": hx(input),
@@ -251,15 +255,6 @@ func init() {
 				n = 8000
 			}
 			genDetachedMutations(h, n)
-		},
-	}
-}
-
-func init() {
-	campaigns["C17"] = campaign{
-		rule: "cases: every Version in {0..3}x{0..2} plus odd values handed to every sending entry point (one-shot and streaming); cross-mode feeding of genuine and header-edited messages to every receiving entry point.",
-		gen: func(h *H) {
-			genSignVersions(h)
 		},
 	}
 }
